@@ -55,7 +55,7 @@ struct model_t
         const auto& g   = features[static_cast<size_t>(f)];
         const auto  src = static_cast<size_t>(src_sample(f, s));
         const auto& st  = source->stored();
-        if (g.kind == 5)
+        if (g.kind == 5 || g.kind == 6)
         {
             return opaque.at(f)[src];
         }
@@ -208,7 +208,7 @@ struct checker_t
         for (tensor_size_t i = 0; i < samples.size() && !c.failed(); ++i)
         {
             const auto v = model.values(f, samples(i));
-            const auto n = g.kind == 0 || g.kind == 2 || g.kind == 4 ? 1 : g.size;
+            const auto n = g.kind == 0 || g.kind == 2 || g.kind == 4 || g.kind == 6 ? 1 : g.size;
             // an opaque (generated) feature with a missing source is all-NaN, which the model keeps as such
             for (tensor_size_t k = 0; k < n; ++k)
             {
@@ -346,22 +346,35 @@ void body(ctx_t& c)
         else
         {
             const auto it = by_name.find(name);
-            if (it == by_name.end() && feature.is_struct())
+            if (it == by_name.end() && (feature.is_struct() || feature.is_scalar()))
             {
                 // generated feature without an independent reference encoder (gradient): capture its direct view now
-                g.kind    = 5;
+                // (a 3x3 image leaves a single gradient value: that feature is a scalar one)
+                g.kind    = feature.is_struct() ? 5 : 6;
                 g.size    = ::nano::size(feature.dims());
                 g.columns = g.size;
-                const auto   all = arange(0, total);
-                struct_mem_t b;
-                const auto   v = dataset.select(all, f, b);
-                auto&        table = model.opaque[f];
+                const auto all   = arange(0, total);
+                auto&      table = model.opaque[f];
                 table.resize(static_cast<size_t>(total));
-                for (tensor_size_t sidx = 0; sidx < total; ++sidx)
+                if (feature.is_struct())
                 {
-                    for (tensor_size_t k = 0; k < g.size; ++k)
+                    struct_mem_t b;
+                    const auto   v = dataset.select(all, f, b);
+                    for (tensor_size_t sidx = 0; sidx < total; ++sidx)
                     {
-                        table[static_cast<size_t>(sidx)].push_back(v(sidx * g.size + k));
+                        for (tensor_size_t k = 0; k < g.size; ++k)
+                        {
+                            table[static_cast<size_t>(sidx)].push_back(v(sidx * g.size + k));
+                        }
+                    }
+                }
+                else
+                {
+                    scalar_mem_t b;
+                    const auto   v = dataset.select(all, f, b);
+                    for (tensor_size_t sidx = 0; sidx < total; ++sidx)
+                    {
+                        table[static_cast<size_t>(sidx)].push_back(v(sidx));
                     }
                 }
                 model.features.push_back(g);
@@ -712,7 +725,7 @@ void body(ctx_t& c)
                                                    -(int64_t(1) << 32), -(int64_t(1) << 31), std::numeric_limits<int64_t>::max(),
                                                    std::numeric_limits<int64_t>::min(), int64_t(1) << 16, int64_t(1) << 8};
                     const auto k                = r.range(0, std::max<int64_t>(total - 1, 0));
-                    samples(r.range(0, samples.size() - 1)) = r.coin(0.3) ? total + r.range(0, 100) : (wide[r.next() % 11] + (r.coin() ? k : 0));
+                    samples(r.range(0, samples.size() - 1)) = r.coin(0.3) ? total + r.range(0, 100) : static_cast<int64_t>(static_cast<uint64_t>(wide[r.next() % 11]) + static_cast<uint64_t>(r.coin() ? k : 0)); // (wraps)
                     if (samples.min() >= 0 && samples.max() < total)
                     {
                         samples(0) = total; // (2^8 / 2^16 may be valid indices of a large dataset)
@@ -737,7 +750,7 @@ void body(ctx_t& c)
                         {
                             dataset.select(samples, f, cb);
                         }
-                        else if (k == 2 || k == 4)
+                        else if (k == 2 || k == 4 || k == 6)
                         {
                             dataset.select(samples, f, sb);
                         }
